@@ -13,7 +13,10 @@ class SendRecord(object):
 def snapshot_fields(command_set):
     """element-number -> plain value for a pydicom command data set (group length excluded)."""
     out = {}
-    for el in command_set:
+    # (read from a copy: iterating a pydicom data set converts its not-yet-converted elements
+    # in place, and an observation must not change the object it observes)
+    import copy
+    for el in copy.deepcopy(command_set):
         tag = int(el.tag)
         if tag >> 16 != 0:
             out[tag] = repr(el.value)
